@@ -23,6 +23,11 @@ const POWERED: [&str; 40] = [
     "J*s/kg/m",
 ];
 
+/// Spellings over *different* unit names that cancel completely (dimensionless
+/// with a scale: m/ft) and three-factor spellings in which a base dimension is
+/// contributed, cancelled and contributed again while the units are expanded.
+const CANCEL2: [&str; 16] = ["m/ft", "km/mi", "in/yd", "N*m/J", "Pa*m^2/N", "J/N/m", "V*A*s/J", "C*V/J", "Wb*A/J", "N*kg/J", "J*kg/N", "W*s/N", "N*s/kg", "kg*m/N", "N*s^2/m", "J*s/W/h"];
+
 /// The spelling set S.
 pub fn spellings(tier: Tier) -> Vec<String> {
     let mut s: Vec<String> = Vec::new();
@@ -55,6 +60,9 @@ pub fn spellings(tier: Tier) -> Vec<String> {
         s.push(c.to_string());
     }
     for c in POWERED {
+        s.push(c.to_string());
+    }
+    for c in CANCEL2 {
         s.push(c.to_string());
     }
     if tier == Tier::Thorough {
@@ -96,7 +104,7 @@ impl Prop for C02 {
         "C02"
     }
     fn rule(&self) -> String {
-        "spelling set S = one typeable name of each of the 84 proportional units, their k-/m- prefixed forms where the word has a single reading, all u*v and u/v over a 14-unit (thorough 26-unit) core, 24 hand-listed cancelling spellings, 40 powered / prefixed-and-powered / three-factor / partly cancelling spellings (m^2 vs ha, cm^3 vs l, s^-1 vs Bq, kg*m^2/s^2 vs J, m^3/m, km*m) (thorough: plus every alias); all ordered pairs (a,b) of S x {`1 a + 1 b`, `3 a - 1 b`, `1 a to b`}; plus `2 + 1 q`, `1 q + 2`, `5 - 1 q`, `1 q - 5` for every q in S. Oracle: Ok iff the independent table gives both sides the same base dimensions; on Ok the SI value is the exact sum/difference/rescaling and a cast result is expressed in the target's unit; a plain number adopts the quantity's unit in both orders. Non-trivial = both sides have non-empty units; distinct = distinct query strings".into()
+        "spelling set S = one typeable name of each of the 84 proportional units, their k-/m- prefixed forms where the word has a single reading, all u*v and u/v over a 14-unit (thorough 26-unit) core, 24 hand-listed cancelling spellings, 16 spellings over different unit names that cancel completely or contribute/cancel/re-contribute a base dimension (m/ft, N*m/J, N*kg/J), 40 powered / prefixed-and-powered / three-factor / partly cancelling spellings (m^2 vs ha, cm^3 vs l, s^-1 vs Bq, kg*m^2/s^2 vs J, m^3/m, km*m) (thorough: plus every alias); all ordered pairs (a,b) of S x {`1 a + 1 b`, `3 a - 1 b`, `1 a to b`}; plus `2 + 1 q`, `1 q + 2`, `5 - 1 q`, `1 q - 5` for every q in S. Oracle: Ok iff the independent table gives both sides the same base dimensions; on Ok the SI value is the exact sum/difference/rescaling and a cast result is expressed in the target's unit; a plain number adopts the quantity's unit in both orders. Non-trivial = both sides have non-empty units; distinct = distinct query strings".into()
     }
     fn assumptions(&self) -> Vec<String> {
         vec![
